@@ -1,6 +1,8 @@
 package gengorums
 
 import (
+	"sort"
+
 	"google.golang.org/protobuf/compiler/protogen"
 )
 
@@ -10,7 +12,13 @@ func GenerateDevFiles(gen *protogen.Plugin, file *protogen.File) {
 	if !gorumsGuard(file) {
 		return
 	}
+	// sort the gorums types so that the output is the same on every run
+	sortedTypes := make([]string, 0, len(gorumsCallTypesInfo))
 	for gorumsType := range gorumsCallTypesInfo {
+		sortedTypes = append(sortedTypes, gorumsType)
+	}
+	sort.Strings(sortedTypes)
+	for _, gorumsType := range sortedTypes {
 		generateDevFile(gen, file, gorumsType)
 	}
 }
